@@ -207,9 +207,18 @@ def clear_caches():
                 elif isinstance(obj, (dict, set)) and attr.startswith("_") and not attr.startswith("__") and len(obj) == 0:
                     # private module-level containers that are empty at import time are treated as caches
                     _CACHED.append(("container", obj))
+                elif isinstance(obj, type) and getattr(obj, "__module__", "").startswith("robotools"):
+                    # class-level containers (shared by all instances) that are empty at import time
+                    for cattr, cobj in list(vars(obj).items()):
+                        if isinstance(cobj, (dict, set, list)) and not cattr.startswith("__") and len(cobj) == 0:
+                            _CACHED.append(("container", cobj))
+                        elif callable(getattr(cobj, "cache_clear", None)):
+                            _CACHED.append(("fn", cobj))
     for kind, obj in _CACHED:
         if kind == "fn":
             obj.cache_clear()
+        elif isinstance(obj, list):
+            del obj[:]
         else:
             obj.clear()
 
